@@ -1,29 +1,29 @@
 #!/bin/sh
 # Offline setup: warm the Go build cache for the harness (std lib of go1.26.8,
-# /repo with the "verif" tag, harness packages).  Nothing is downloaded.
+# /repo with the "verif" tag — for the properties that ask for it, its
+# yield-instrumented scratch copy —, harness packages).  Nothing is downloaded.
 set -e
 cd "$(dirname "$0")"
 export GOFLAGS=-mod=mod GOPROXY=off GOSUMDB=off GOTOOLCHAIN=local
 python3 - <<'PY'
-import importlib.machinery, importlib.util, os
+import importlib.machinery, importlib.util, os, shutil, sys, tempfile
 loader = importlib.machinery.SourceFileLoader("check", os.path.join(os.getcwd(), "check"))
 spec = importlib.util.spec_from_loader("check", loader)
 m = importlib.util.module_from_spec(spec); loader.exec_module(m)
 m.sync_gosum()
+status = 0
+base = os.environ.get("VERIF_SCRATCH", "/dev/shm")
+for pid in sorted(m.PROPS):
+    c = m.cfg(pid)
+    if not c.get("registered"):
+        continue
+    scratch = tempfile.mkdtemp(prefix="verif-setup-%s-" % pid, dir=base)
+    try:
+        m.build(pid, c, scratch)
+    except SystemExit:
+        print("setup: building %s failed" % pid, file=sys.stderr)
+        status = 1
+    finally:
+        shutil.rmtree(scratch, ignore_errors=True)
+sys.exit(status)
 PY
-cd sim
-out=$(mktemp -d /dev/shm/verif-setup-XXXXXX)
-trap 'rm -rf "$out"' EXIT
-status=0
-for d in props/*/; do
-    p=$(basename "$d")
-    # Only registered properties (entry.json with "registered": true) are built.
-    grep -qs '"registered": *true' "$d/entry.json" || continue
-    race=""
-    if grep -q '"race": *true' "$d/entry.json"; then race="-race"; fi
-    if ! go1.26.8 test -c -tags verif $race -o "$out/$p.test" "./props/$p/" ; then
-        echo "setup: building props/$p failed" >&2
-        status=1
-    fi
-done
-exit $status
